@@ -207,7 +207,7 @@ def check_case(case, ctx):
 
 
 def plan(tier):
-    n = 12 if tier == 'quick' else 1500
+    n = 12 if tier == 'quick' else 1000
     return [{'n': n}] * 16
 
 
